@@ -232,6 +232,9 @@ Definition step (g : graph) (c : cfg) (st : state) (e : event) : option state :=
       match ph st n with
       | MF2 => Some (mkState (upd (ph st) n Waiting) (dst st) (n :: cached st) (tag st) (returned st))
       | Closing sk => Some (set_ph st n (after_push c n sk))
+      | Pushing sk true => Some (set_ph st n (Pushing sk false))
+          (* the destination closed the reader it was given before returning (an HTTP client
+             closes the request body); doCopyNode's deferred Close is then a no-op *)
       | MtF2 => Some (set_ph st n MtC)
       | _ => None
       end
